@@ -57,7 +57,9 @@ class HasIO(Module):
             opts = {'uri': self.uri, 'description': f'communication device for {name}',
                     'visibility': 'expert'}
             ioname = self.ioDict.get(self.uri)
-            if not ioname:
+            if ioname not in srv.secnode.modules:
+                # ioDict outlives a SecNode: after a restart it names the communicator
+                # of the previous node, which has to be created again on this one
                 ioname = opts.get('io') or f'{name}_io'
                 io = self.ioClass(ioname, srv.log.getChild(ioname), opts, srv)  # pylint: disable=not-callable
                 io.callingModule = []
